@@ -276,7 +276,9 @@ pub fn run_check(spec: CheckSpec, tier: Tier) -> i32 {
   let base_seed = env_u64("VERIF_SEED", 1);
   let jobs = env_u64("VERIF_JOBS", 16).max(1) as usize;
   let vdir = verif_dir();
-  let known = Arc::new(load_known(&vdir));
+  // diagnostics for regenerating witness files: ignore the known-findings file / keep one class only
+  let known = Arc::new(if std::env::var("VERIF_IGNORE_KNOWN").is_ok() { Vec::new() } else { load_known(&vdir) });
+  let only_class = std::env::var("VERIF_ONLY_CLASS").ok();
   let cap_s = match tier {
     Tier::Quick => spec.quick_cap_s,
     Tier::Thorough => spec.thorough_cap_s,
@@ -299,6 +301,7 @@ pub fn run_check(spec: CheckSpec, tier: Tier) -> i32 {
       let spec = spec.clone();
       let stats = stats.clone();
       let found = found.clone();
+      let only_class = only_class.clone();
       let stop = stop.clone();
       let capped = capped.clone();
       let next = next.clone();
@@ -380,6 +383,9 @@ pub fn run_check(spec: CheckSpec, tier: Tier) -> i32 {
                 ]));
               }
               for v in out.violations {
+                if only_class.as_ref().map_or(false, |c| *c != v.class) {
+                  continue;
+                }
                 match match_known(&known, spec.property, fam, &w, &v) {
                   Some(k) => {
                     *local.known_hits.entry(k).or_insert(0) += 1;
